@@ -140,7 +140,7 @@ def compare(ctx, prog, res):
             if a != c:
                 item, kind = classify(lab)
                 oc = "exc-vs-value" if (IT.is_exc(a) != IT.is_exc(c)) else ("exc-type" if IT.is_exc(a) else "value")
-                ctx.violation({"kind": "differs", "builder": b, "item": item, "probe": kind, "how": oc},
+                ctx.violation({"kind": "differs", "builder": b, "what": IT.sig_class(lab), "probe": kind, "how": oc},
                               {"program": list(prog), "builder": b, "label": lab, "set_source": a, "other": c})
                 ndiff += 1
     return ndiff
